@@ -19,7 +19,7 @@ for i in range(1,21):
     anchor="and makes the first calls of a fresh process concurrently on large inputs)."
     assert anchor in s
     s=s.replace(anchor, anchor+" "+EXTRA,1)
-    s=s.replace("(for example that a slice handed to a callback stays valid after the callback returns)","(for example that a slice handed to a callback stays valid after the callback returns, that arguments which share memory with each other — a src lying in dst's spare capacity — are handled, or inputs outside the format's own naming rules such as an empty SAM tag name)")
+    s=s.replace("(for example that a slice handed to a callback stays valid after the callback returns)","(for example that a slice handed to a callback stays valid after the callback returns, that arguments which share memory with each other — a src lying in dst's spare capacity — are handled, inputs outside the format's own naming rules such as an empty SAM tag name, or what ONE iterator value does when it is ranged again after the caller has moved the source or edited the tree it was obtained from)")
     s+="\n\nPRACTICAL NOTE: work in small steps — keep every single message and every tool call short (never write more than about 150 lines in one go; build larger files with several edits) and keep your planning brief; an over-long single response aborts the whole task. Do not read anything under /root (not even the Go module cache); if you need to know how a dependency behaves, write a tiny test instead.\n"
     os.makedirs('/tmp/seeded-out',exist_ok=True)
     open(f'/tmp/seeded-out/prompt-{pid}{L}.txt','w').write(s)
